@@ -5,6 +5,11 @@ import A2Verif.Lemmas.C06Dos
 `Op` lists the operations of the concrete model (`init`, `put`, `delete`, `rename`, `lock`, `unlock`, `retype` and the
 queries `get`, `catalog`, `stat`); `op_sim`: on twins (`DSim`) every operation gives the same answer and leads to
 twins.  Histories with reloads interleaved anywhere follow by induction (`exec_sim`).
+
+Everything is stated for EVERY source variant `rp : Repairs` of `put` / `write_file` (`Model/Fs/Dos3x.lean`): `{}` = the
+source as written at the pinned commit, `Repairs.repaired` = HEAD since f61df96 / 92058e4 (slot search before the T/S-list
+sector is reserved, oversize chunk refused) — the variant the harness probe (`fsd variant`) selects.  `rp` is the last,
+optional argument (`o.run d`, `exec d steps` are the as-written instances).
 -/
 namespace A2Verif.Reload.Dos
 open A2Verif.Fs.Dos3x
@@ -30,9 +35,10 @@ inductive Out where
   | rows (x : R (List (Bytes × Nat × Nat)))
 
 /-- run one operation: answer and object afterwards (a query may open the buffer) -/
-def Op.run (d : Disk) : Op → Out × Disk
+def Op.run (d : Disk) (o : Op) (rp : Repairs := {}) : Out × Disk :=
+  match o with
   | .init vol sectors => let x := Fs.Dos3x.init d vol sectors; (.unit x.1, x.2)
-  | .put f => let x := Fs.Dos3x.put d f; (.nat x.1, x.2)
+  | .put f => let x := Fs.Dos3x.put d f rp; (.nat x.1, x.2)
   | .delete n => let x := Fs.Dos3x.delete d n; (.unit x.1, x.2)
   | .rename o n => let x := Fs.Dos3x.rename d o n; (.unit x.1, x.2)
   | .lock n => let x := Fs.Dos3x.lock d n; (.unit x.1, x.2)
@@ -42,8 +48,8 @@ def Op.run (d : Disk) : Op → Out × Disk
   | .catalog => let x := Fs.Dos3x.catalog d; (.rows x.1, x.2)
   | .statFree => let x := Fs.Dos3x.statFree d; (.nat x.1, x.2)
 
-theorem put_sim {d d' : Disk} (h : DSim d d') (f : FImg) :
-    (put d' f).1 = (put d f).1 ∧ DSim (put d f).2 (put d' f).2 := by
+theorem put_sim {d d' : Disk} (h : DSim d d') (f : FImg) (rp : Repairs := {}) :
+    (put d' f rp).1 = (put d f rp).1 ∧ DSim (put d f rp).2 (put d' f rp).2 := by
   unfold Fs.Dos3x.put
   by_cases h1 : (!f.fsOk) = true
   · simp only [if_pos h1]; exact ⟨trivial, h⟩
@@ -51,11 +57,13 @@ theorem put_sim {d d' : Disk} (h : DSim d d') (f : FImg) :
     by_cases h2 : f.chunkLen ≠ 256
     · simp only [if_pos h2]; exact ⟨trivial, h⟩
     · simp only [if_neg h2]
-      -- the model's default variant (`rp := {}`, the source before repair 92058e4) has no chunk guard
-      simp only [Bool.false_and, Bool.false_eq_true, ↓reduceIte]
-      by_cases h3 : (!isNameValid f.fullPath) = true
-      · simp only [if_pos h3]; exact ⟨trivial, h⟩
-      · simp only [if_neg h3]; exact run_sim (Resp.writeFile f) h
+      -- the chunk guard of the repaired variant (92058e4) looks at the file image only
+      by_cases hg : (rp.chunkGuard && f.chunks.any (fun c => decide (c.2.length > 256))) = true
+      · simp only [if_pos hg]; exact ⟨trivial, h⟩
+      · simp only [if_neg hg]
+        by_cases h3 : (!isNameValid f.fullPath) = true
+        · simp only [if_pos h3]; exact ⟨trivial, h⟩
+        · simp only [if_neg h3]; exact run_sim (Resp.writeFile f rp) h
 
 theorem modify_sim {d d' : Disk} (h : DSim d d') (name : Bytes) (lk : Option Bool) (nn : Option Bytes) (ft : Option (Option Nat)) :
     (modify d' name lk nn ft).1 = (modify d name lk nn ft).1 ∧ DSim (modify d name lk nn ft).2 (modify d' name lk nn ft).2 := by
@@ -165,10 +173,11 @@ theorem init_sim {d d' : Disk} (h : DSim d d') (vol sectors : Nat) :
     | closed _ _ hs _ => exact initTail_twin hs vol sectors
 
 /-- C06 (DOS 3.x), continuation, one step: on twins every operation gives the same answer and leads to twins -/
-theorem op_sim {d d' : Disk} (h : DSim d d') (o : Op) : (o.run d').1 = (o.run d).1 ∧ DSim (o.run d).2 (o.run d').2 := by
+theorem op_sim {d d' : Disk} (h : DSim d d') (o : Op) (rp : Repairs := {}) :
+    (o.run d' rp).1 = (o.run d rp).1 ∧ DSim (o.run d rp).2 (o.run d' rp).2 := by
   cases o with
   | init vol sectors => obtain ⟨e, s⟩ := init_sim h vol sectors; exact ⟨congrArg Out.unit e, s⟩
-  | put f => obtain ⟨e, s⟩ := put_sim h f; exact ⟨congrArg Out.nat e, s⟩
+  | put f => obtain ⟨e, s⟩ := put_sim h f rp; exact ⟨congrArg Out.nat e, s⟩
   | delete n => obtain ⟨e, s⟩ := delete_sim h n; exact ⟨congrArg Out.unit e, s⟩
   | rename o n => obtain ⟨e, s⟩ := rename_sim h o n; exact ⟨congrArg Out.unit e, s⟩
   | lock n => obtain ⟨e, s⟩ := modify_sim h n (some true) none none; exact ⟨congrArg Out.unit e, s⟩
@@ -184,10 +193,11 @@ inductive Step where
   | reload
 
 /-- run a history; `reload` replaces the object by `load (save ·)` -/
-def exec : Disk → List Step → List Out × Disk
-  | d, [] => ([], d)
-  | d, .op o :: rest => let x := o.run d; let y := exec x.2 rest; (x.1 :: y.1, y.2)
-  | d, .reload :: rest => exec (reload d) rest
+def exec (d : Disk) (steps : List Step) (rp : Repairs := {}) : List Out × Disk :=
+  match steps with
+  | [] => ([], d)
+  | .op o :: rest => let x := o.run d rp; let y := exec x.2 rest rp; (x.1 :: y.1, y.2)
+  | .reload :: rest => exec (reload d) rest rp
 
 /-- the same history without the reloads -/
 def opsOf : List Step → List Step
@@ -195,20 +205,23 @@ def opsOf : List Step → List Step
   | .op o :: rest => .op o :: opsOf rest
   | .reload :: rest => opsOf rest
 
-theorem exec_sim : ∀ (steps : List Step) {d d' : Disk}, DSim d d' →
-    (exec d' steps).1 = (exec d (opsOf steps)).1 ∧ DSim (exec d (opsOf steps)).2 (exec d' steps).2 := by
-  intro steps
-  induction steps with
-  | nil => intro d d' h; exact ⟨rfl, h⟩
+theorem exec_sim (steps : List Step) {d d' : Disk} (h : DSim d d') (rp : Repairs := {}) :
+    (exec d' steps rp).1 = (exec d (opsOf steps) rp).1 ∧ DSim (exec d (opsOf steps) rp).2 (exec d' steps rp).2 := by
+  induction steps generalizing d d' with
+  | nil => unfold opsOf exec; exact ⟨rfl, h⟩
   | cons s rest ih =>
-    intro d d' h
     cases s with
     | op o =>
-      obtain ⟨e, s⟩ := op_sim h o
+      obtain ⟨e, s⟩ := op_sim h o rp
       obtain ⟨e2, s2⟩ := ih s
+      unfold opsOf
+      rw [exec, exec]
       refine ⟨?_, s2⟩
-      show (o.run d').1 :: (exec (o.run d').2 rest).1 = (o.run d).1 :: (exec (o.run d).2 (opsOf rest)).1
+      show (o.run d' rp).1 :: (exec (o.run d' rp).2 rest rp).1 = (o.run d rp).1 :: (exec (o.run d rp).2 (opsOf rest) rp).1
       rw [e, e2]
-    | reload => exact ih (dsim_reload h)
+    | reload =>
+      unfold opsOf
+      rw [exec]
+      exact ih (dsim_reload h)
 
 end A2Verif.Reload.Dos
